@@ -199,3 +199,37 @@ def r4(ctx, R):
         ok = sh is not None and len(sh) == 6 and sh[3] and sh[0] == name
         it_ok = ok and ((sh[1], sh[2]) in (('axes[0]', 'axes[1:]'), ('0', 'range(1, self.ndim)')))
         R.check(bool(ok and it_ok), f'SpectralHelper.{name} :: product over the requested axes of expand_matrix_ND(1-d {name} of that axis, that axis)', f'{SH}:SpectralHelper.{name}', f'X = expand(axes[a0].{name}(), a0); for axis in the rest: X = X @ expand(axes[axis].{name}(), axis)', sh)
+
+
+@rule('C17', 'C17.R5', 'boundary rows as tensor products: in SpectralHelper.get_BC the boundary factor sits in the slot of its axis when the Kronecker product is formed - no later store can overwrite it (negative axis indices alias non-negative ones), products in axis order', floor=3)
+def r5(ctx, R):
+    from ..cfg import FuncCFG
+    repo = ctx.repo
+    fn = repo.func(SH, 'SpectralHelper.get_BC')
+    w = f'{SH}:SpectralHelper.get_BC'
+    R.fn(w)
+    cfg = FuncCFG(fn)
+    arms = [s for s in ast.walk(fn) if isinstance(s, ast.If) and re.fullmatch(r'ndim == [23]', ast.unparse(s.test))]
+    if len(arms) != 2:
+        raise AnalysisError(f'{w}: expected the 2-d and 3-d arms')
+    safe_idx = {ast.unparse(s.targets[0]) for s in ast.walk(fn) if isinstance(s, ast.Assign) and ast.unparse(s.value) == '(axis + 1) % ndim'}
+    for arm in arms:
+        dim = ast.unparse(arm.test)[-1]
+        stores = [s for st in arm.body for s in ast.walk(st) if isinstance(s, ast.Assign) and isinstance(s.targets[0], ast.Subscript) and ast.unparse(s.targets[0].value) == 'mats']
+        bc = [s for s in stores if 'BC' in ast.unparse(s.value)]
+        ok = len(bc) == 1 and ast.unparse(bc[0].targets[0]) == 'mats[axis]' and ast.unparse(bc[0].value) == 'self.get_local_slice_of_1D_matrix(BC, axis=axis)'
+        late = []
+        if ok:
+            nb = cfg.node_of[id(bc[0])]
+            for s in stores:
+                if s is bc[0]:
+                    continue
+                ns = cfg.node_of[id(s)]
+                if cfg.reachable(nb, ns) and ast.unparse(s.targets[0].slice) not in safe_idx:
+                    late.append(ast.unparse(s.targets[0]) + ' = ' + ast.unparse(s.value)[:50])
+        R.check(ok and not late, f'get_BC :: {dim}-d: the boundary matrix is stored into mats[axis] and nothing that may alias that slot is stored afterwards', w, 'mats[axis] = BC after the identities (or the other slot is (axis + 1) % ndim)', {'BC stores': [ast.unparse(s) for s in bc], 'stores reachable after it': late})
+        kr = [ast.unparse(s.value) for st in arm.body for s in ast.walk(st) if isinstance(s, ast.Assign) and ast.unparse(s.targets[0]) == 'mat']
+        want = 'self.sparse_lib.csc_matrix(self.sparse_lib.kron(*mats))' if dim == '2' else 'self.sparse_lib.csc_matrix(self.sparse_lib.kron(mats[0], self.sparse_lib.kron(*mats[1:])))'
+        R.check(kr == [want], f'get_BC :: {dim}-d: Kronecker product in axis order', w, want, kr)
+    row = [ast.unparse(s) for s in ast.walk(fn) if isinstance(s, ast.Assign) and ast.unparse(s.targets[0]) == 'BC[line, :]']
+    R.check(len(row) == 2 and all('base.get_BC(kind=kind, **kwargs)' in r for r in row) and 'base = self.axes[axis]' in [ast.unparse(s) for s in walk_no_nested(fn) if isinstance(s, ast.Assign)], 'get_BC :: the 1-d boundary row of THIS axis goes into the requested line of an otherwise zero matrix', w, 'BC[line, :] = self.axes[axis].get_BC(kind, ..)', row)
